@@ -317,6 +317,44 @@ struct is_nikolaev : std::false_type {};
 template <class T, class... P>
 struct is_nikolaev<nikolaev_queue<T, P...>> : std::true_type {};
 
+// reclaimer of a queue type (void: the queue does not use one) and an optional region_guard of it
+template <class Q>
+struct RecOf {
+  using type = void;
+};
+template <class T, class R, class... P>
+struct RecOf<michael_scott_queue<T, policy::reclaimer<R>, P...>> {
+  using type = R;
+};
+template <class T, class R, class... P>
+struct RecOf<ramalhete_queue<T, policy::reclaimer<R>, P...>> {
+  using type = R;
+};
+template <class T, class R, class... P>
+struct RecOf<nikolaev_queue<T, policy::reclaimer<R>, P...>> {
+  using type = R;
+};
+template <class T, class R, class... P>
+struct RecOf<kirsch_kfifo_queue<T, policy::reclaimer<R>, P...>> {
+  using type = R;
+};
+template <class R>
+struct RegionScope {
+  alignas(typename R::region_guard) unsigned char buf[sizeof(typename R::region_guard)];
+  bool on;
+  explicit RegionScope(bool enable) : on(enable) {
+    if (on) new (buf) typename R::region_guard();
+  }
+  ~RegionScope() {
+    using RG = typename R::region_guard;
+    if (on) reinterpret_cast<RG*>(buf)->~RG();
+  }
+};
+template <>
+struct RegionScope<void> {
+  explicit RegionScope(bool) {}
+};
+
 template <class A>
 struct QHarness {
   using Q = typename A::Q;
@@ -330,6 +368,7 @@ struct QHarness {
   int nprefix = 0;
   POp progs[MAXT][MAXOPS];
   int nthreads = 2;
+  int region_mode = 0;
   vh::hvec<QOp> hist[MAXT + 1]; // per thread (index MAXT: main)
   bool drain = true;
   bool large = false;
@@ -434,6 +473,10 @@ struct QHarness {
         progs[t][i] = o;
       }
     drain = c07 ? vrt::choose(4) == 0 : vrt::choose(8) != 0;
+    // last draw (replay files written before it existed read 0 = none): threads that run their whole program inside
+    // one region_guard of the queue's reclaimer - a documented way to use the containers, under which guard_ptrs do
+    // not enter/leave the critical region (and do not execute its fences) themselves
+    region_mode = large ? 0 : (int)vrt::choose(4);
 
     if (vrt::solo_mode()) {
       // nikolaev queues promise lock-freedom only while fewer threads than slots (per node) operate on the queue
@@ -450,7 +493,8 @@ struct QHarness {
       }
     }
     if (vrt::want_desc()) {
-      vrt::desc("element=%s cap=%u k=%u segments=%u threads=%d drain=%d\n  prefix:", ET<E>::name, par.cap, par.k, par.segs, nthreads, (int)drain);
+      vrt::desc("element=%s cap=%u k=%u segments=%u threads=%d drain=%d%s\n  prefix:", ET<E>::name, par.cap, par.k, par.segs, nthreads, (int)drain,
+                region_mode == 2 ? " region_guard=all threads" : region_mode == 3 ? " region_guard=T1" : "");
       for (int i = 0; i < nprefix; ++i) vrt::desc(" %s", prefix[i].kind == K_PUSH ? "push" : "pop");
       vrt::desc("\n");
       for (int t = 0; t < nthreads; ++t) {
@@ -460,7 +504,8 @@ struct QHarness {
         vrt::desc("\n");
       }
     }
-    uint64_t ph = vh::hmix(par.cap, par.k * 16 + par.segs);
+    uint64_t ph = vh::hmix(par.cap, par.k * 16 + par.segs + 4096 * (uint64_t)region_mode);
+    if (region_mode >= 2 && !std::is_void<typename RecOf<Q>::type>::value) vrt::label("threads_inside_region_guard");
     for (int i = 0; i < nprefix; ++i) ph = vh::hmix(ph, prefix[i].kind);
     for (int t = 0; t < nthreads; ++t)
       for (int i = 0; i < MAXOPS; ++i) ph = vh::hmix(ph, progs[t][i].kind * 8 + progs[t][i].variant + 64 * t);
@@ -476,6 +521,7 @@ struct QHarness {
       vh::Threads th;
       for (int t = 0; t < nthreads; ++t)
         th.start([this, t] {
+          RegionScope<typename RecOf<Q>::type> rg(region_mode == 2 || (region_mode == 3 && t == 0));
           for (int i = 0; i < MAXOPS; ++i)
             if (progs[t][i].kind) {
               vrt::point();
